@@ -91,6 +91,9 @@ def correspond(ctx):
     res = ctx.futs["corr"].result()
     if res is None:
         return
+    for f in res["failures"]:
+        ctx.failure(f["signature"], f["what"], f["data"])
+        ctx.problem("correspondence", f["what"])
     jobs = [("c01arrays", _arrays_body(res["arrays"]))]
     names = [("arrays", res["arrays"])]
     for order, r in sorted(res["rule"].items(), key=lambda kv: int(kv[0])):
@@ -139,11 +142,14 @@ def correspond(ctx):
         elif kind == "arrays":
             n_eval += len(data)
             nontriv += sum(1 for c in data if len(c["test_indices"]) > sum(1 for a, b in zip(c["ts"], c["rs"]) if a and b))
-            for i in nl[0]:
+            for n_bad, i in enumerate(nl[0]):
                 c = data[i]
                 ctx.corr["disagreements"] += 1
-                ctx.problem("correspondence", "get_arrays() and the model disagree: %s order %d supports %s / %s" % (
-                    c["tag"], c["order"], c["ts"], c["rs"]))
+                if n_bad < 4:
+                    ctx.problem("correspondence", "get_arrays() and the model disagree: %s order %d supports %s / %s" % (
+                        c["tag"], c["order"], c["ts"], c["rs"]))
+            if len(nl[0]) > 4:
+                ctx.problem("correspondence", "... and %d more get_arrays() cases disagree" % (len(nl[0]) - 4))
         else:
             n_eval += 1
             nontriv += 1
@@ -204,12 +210,18 @@ def _collect(ctx):
             return
         vec[w] = res["vectors"]["cases"]
         ctx.search_info["evaluations"] += res["search_evals"]
+        for f in res["failures"]:
+            ctx.failure(f["signature"], f["what"], f["data"])
     table = {}
     for k, c in enumerate(vec["V"]):
         seqs = {1: [], 2: []}
         for o in range(len(c["orders"])):
             Vp, Kg = vec["V"][k]["vectors"][o], vec["K"][k]["vectors"][o]
             Wg, Kt = vec["W"][k]["vectors"][o], vec["Kt"][k]["vectors"][o]
+            if any(isinstance(x, dict) for x in (Vp, Kg, Wg, Kt)):   # assembly raised: already recorded as a failing input
+                seqs[1].append(float("inf"))
+                seqs[2].append(float("inf"))
+                continue
             seqs[1].append(_norm([p - q for p, q in zip(Kg, Vp)]) / _norm(Vp))
             seqs[2].append(_norm([p - q for p, q in zip(Wg, Kt)]) / _norm(Kt))
         verdicts = {i: _judge(s) for i, s in seqs.items()}
@@ -227,8 +239,8 @@ def _collect(ctx):
 def replay(ctx):
     regen(ctx)
     data = ctx.replay.get("input") or {}
-    if "vertices" in data:
-        res = ctx.run_impl("c01_impl.py", {"parts": ["replay"], "input": data}, timeout=3400)
+    if "a" in data or "order" in data:
+        res = ctx.run_impl("c01_impl.py", {"parts": ["replay" if "a" in data else "replay_arrays"], "input": data}, timeout=3400)
         if res:
             ctx.search_info["evaluations"] = res["search_evals"]
             ctx.search_info["notes"].append(res.get("worst"))
